@@ -1,3 +1,154 @@
+import QmiModel.Model.RpcClass
+import QmiModel.Gen.RpcClasses
 import Drv.Common
-/-! stub driver for C05: replaced when the model is built -/
-def main : IO Unit := Drv.main' (fun (s : Unit) _ => (s, "bad-op")) ()
+/-!
+Line-protocol driver for C05 (state = the current class).
+
+  cls <key>                     select a generated class table (`genClasses`)          → ok | unknown-class
+  syn hook=<b> cm=<b> inst=<I> mro=<T>|<T>|…   select a synthetic class given on the line → ok
+        I = `-` | name:<b>,name:<b>,…       T = `-` | name:<kind>,name:<kind>,…
+        kind = f<m><d> | s<m><d> | c<m><d> | p | n | d | o<m> | k        (<m>,<d>,<b> ∈ {0,1})
+  q <name>                      → adv=<b> inv=<b> eff=<none|called|getter|hook> reply=<unknown|result|getter> decl=<b>
+  ctor                          → ok <k> | exc:QMI_UsageException
+  adv                           → advertised names, sorted by code points, space separated (`-` if none)
+  wf                            → wf=1 | wf=0 bad=<names>
+
+names: code points in decimal joined by `.`, the empty string is `-`.
+-/
+open QmiModel.RpcClass
+
+namespace DrvC05
+
+def parseBit (s : String) : Option Bool :=
+  if s == "0" then some false else if s == "1" then some true else none
+
+def parseName (s : String) : Option Name :=
+  if s == "-" then some (encodeName []) else
+  let parts := s.splitOn "."
+  let cps := parts.map String.toNat?
+  if cps.all Option.isSome then
+    let l := cps.filterMap id
+    if l.all (· < 0x110000) then some (encodeName l) else none
+  else none
+
+def decodeAux : Nat → Nat → List Nat
+  | 0, _ => []
+  | fuel + 1, n =>
+    if n = 0 then [] else
+    let d := if n % nameBase = 0 then nameBase else n % nameBase
+    (d - 1) :: decodeAux fuel ((n - d) / nameBase)
+
+def decodeName (n : Name) : List Nat := decodeAux (n + 1) n
+
+def showName (n : Name) : String :=
+  match decodeName n with
+  | [] => "-"
+  | l => ".".intercalate (l.map toString)
+
+def lexLt : List Nat → List Nat → Bool
+  | [], [] => false
+  | [], _ :: _ => true
+  | _ :: _, [] => false
+  | a :: as, b :: bs => if a < b then true else if b < a then false else lexLt as bs
+
+def insertSorted (x : List Nat) : List (List Nat) → List (List Nat)
+  | [] => [x]
+  | y :: ys => if lexLt y x then y :: insertSorted x ys else x :: y :: ys
+
+def sortNames (ns : List Name) : List (List Nat) :=
+  (ns.map decodeName).foldl (fun acc x => insertSorted x acc) []
+
+def showCps (l : List Nat) : String :=
+  match l with
+  | [] => "-"
+  | l => ".".intercalate (l.map toString)
+
+def showNames (ns : List Name) : String :=
+  match sortNames ns with
+  | [] => "-"
+  | l => " ".intercalate (l.map showCps)
+
+def parseKind (s : String) : Option Kind :=
+  match s.toList with
+  | ['f', m, d] => do let m ← parseBit (String.ofList [m]); let d ← parseBit (String.ofList [d]); pure (.func m d)
+  | ['s', m, d] => do let m ← parseBit (String.ofList [m]); let d ← parseBit (String.ofList [d]); pure (.staticfn m d)
+  | ['c', m, d] => do let m ← parseBit (String.ofList [m]); let d ← parseBit (String.ofList [d]); pure (.classfn m d)
+  | ['p'] => some .prop
+  | ['n'] => some .ndprop
+  | ['d'] => some .data
+  | ['o', m] => do let m ← parseBit (String.ofList [m]); pure (.callableObj m)
+  | ['k'] => some .classRef
+  | _ => none
+
+def parseEntries {β : Type} (pv : String → Option β) (s : String) : Option (List (Name × β)) :=
+  if s == "-" then some [] else
+  (s.splitOn ",").mapM (fun e =>
+    match e.splitOn ":" with
+    | [n, v] => do let n ← parseName n; let v ← pv v; pure (n, v)
+    | _ => none)
+
+def stripPrefix (p s : String) : Option String :=
+  if s.startsWith p then some (String.ofList (s.toList.drop p.length)) else none
+
+def parseSyn (toks : List String) : Option RpcClass :=
+  match toks with
+  | [h, c, i, m] => do
+    let h ← (stripPrefix "hook=" h) >>= parseBit
+    let c ← (stripPrefix "cm=" c) >>= parseBit
+    let i ← (stripPrefix "inst=" i) >>= parseEntries parseBit
+    let m ← stripPrefix "mro=" m
+    let ts ← (m.splitOn "|").mapM (parseEntries parseKind)
+    pure { mro := ts, inst := i, classMarked := c, getattrHook := h }
+  | _ => none
+
+def b2s (b : Bool) : String := if b then "1" else "0"
+
+def query (C : RpcClass) (n : Name) : String :=
+  let eff := match effects C n with
+    | [] => "none"
+    | [.called _] => "called"
+    | [.getterRan _] => "getter"
+    | [.hookRan _] => "hook"
+    | _ => "multi"
+  let rep := match reply C n with
+    | .unknownRpc => "unknown"
+    | .methodResult => "result"
+    | .getterDecides => "getter"
+  s!"adv={b2s (decide (n ∈ advertised C))} inv={b2s (invokable C n)} eff={eff} reply={rep} decl={b2s (declared C n)}"
+
+def stepLine (cur : Option RpcClass) (line : String) : Option RpcClass × String :=
+  match line.splitOn " " with
+  | ["cls", key] =>
+    match QmiModel.Gen.genClasses.find? (fun p => p.1 == key) with
+    | some p => (some p.2, "ok")
+    | none => (cur, "unknown-class")
+  | "syn" :: rest =>
+    match parseSyn rest with
+    | some C => (some C, "ok")
+    | none => (cur, "bad-op")
+  | ["q", name] =>
+    match cur, parseName name with
+    | some C, some n => (cur, query C n)
+    | _, _ => (cur, "bad-op")
+  | ["ctor"] =>
+    match cur with
+    | some C =>
+      match construct C with
+      | .ok ms => (cur, s!"ok {ms.length}")
+      | .error .usage => (cur, "exc:QMI_UsageException")
+    | none => (cur, "bad-op")
+  | ["adv"] =>
+    match cur with
+    | some C => (cur, showNames (advertised C))
+    | none => (cur, "bad-op")
+  | ["wf"] =>
+    match cur with
+    | some C =>
+      if wfExceptB C [] then (cur, "wf=1")
+      else (cur, s!"wf=0 hook={b2s C.getattrHook} bad={showNames (badNames C)}")
+    | none => (cur, "bad-op")
+  | _ => (cur, "bad-op")
+
+end DrvC05
+
+def main : IO Unit := Drv.main' DrvC05.stepLine none
